@@ -57,3 +57,15 @@ Definition chk_crash (c : wconf) (recs : list grec) (snaps : list (nat * bytes *
         | Err _ => ERRMISMATCH
         end) snaps AGREE
   end.
+
+(* a run whose close() fails (announced count different from the records written): the exception class of
+   close, the bytes left on disk and the reader's verdict on them *)
+Definition chk_failclose (c : wconf) (recs : list grec) (werr : nat) (fo : bytes) (o : pobs) : nat :=
+  match file_left c (write_ops recs) with
+  | Ok (f, Some e) =>
+      if negb (err_match e werr) then DISAGREE else
+      if negb (forallb in_model_char fo) then INDET else
+      if bytes_eqb f fo then chk_partial (Ok []) fo o else DISAGREE
+  | Ok (_, None) => ERRMISMATCH
+  | Err _ => ERRMISMATCH
+  end.
